@@ -443,6 +443,12 @@ class Executor:
     def eval_operand(self, st, frame, op):
         if op.kind == 'const':
             c = op.const
+            if c.startswith('<') and ' as ' in c and 'promoted[' not in c:
+                cs = subst(c, frame.bind)
+                v = self.eval_assoc_const(st, frame, cs)
+                if v is not None:
+                    return v
+                raise Unsupported(f"associated constant {cs} not found")
             if 'promoted[' in c or re.match(r'^[A-Za-z_][\w:<>]*::[A-Z_][A-Z_0-9]*$', strip_generics(c)) and strip_generics(c).split('::')[-1].isupper():
                 v = self.eval_named_const(st, frame, c)
                 if v is not None:
@@ -455,6 +461,36 @@ class Executor:
         if isinstance(v, (Agg, Enum, Opaque, Lazy)):
             self.write_path(st, cell, path, Moved())
         return v
+
+    def eval_assoc_const(self, st, frame, c):
+        """`<Type as Trait>::NAME`: the impl's constant if the impl defines it, else the trait's default"""
+        m = re.match(r'<(.+) as ([^>]+)>::(\w+)$', c)
+        if not m:
+            return None
+        ty, trait, name = last_seg(m.group(1)), last_seg(m.group(2)), m.group(3)
+        from .mirparse import FULL_CONSTS
+        impl_hit, default_hit = None, None
+        for full, lit in FULL_CONSTS.items():
+            if not full.endswith('::' + name):
+                continue
+            mm = re.search(r'<impl at (src/[^:]+):(\d+):(\d+): ', full)
+            if mm:
+                ii = self.prog._impl_info(mm.group(1), int(mm.group(2)), int(mm.group(3)))
+                if ii and ii.trait and last_seg(ii.trait) == trait and last_seg(ii.self_ty) == ty:
+                    impl_hit = lit
+            elif full.split('::')[-2:] == [trait, name]:
+                default_hit = lit
+        for fname, fl in self.prog.funcs.items():
+            if fname.endswith('::' + name) and not fl[0].args:
+                mm = re.search(r'<impl at (src/[^:]+):(\d+):(\d+): ', fname)
+                if mm:
+                    ii = self.prog._impl_info(mm.group(1), int(mm.group(2)), int(mm.group(3)))
+                    if ii and ii.trait and last_seg(ii.trait) == trait and last_seg(ii.self_ty) == ty:
+                        res = self.run(State(), fl[0], [])
+                        if len(res) == 1 and not isinstance(res[0][1], Panic):
+                            return res[0][1]
+        lit = impl_hit if impl_hit is not None else default_hit
+        return self.eval_const(lit) if lit is not None else None
 
     def eval_named_const(self, st, frame, c):
         """promoted constants and crate-level consts: evaluate their MIR body (must be straight-line)"""
@@ -853,6 +889,30 @@ class Executor:
             if t.data['otherwise'] is not None:
                 succs.append((z3.And(*others) if others else z3.BoolVal(True), t.data['otherwise']))
             feas = []
+            if isinstance(v, Int) and len(t.data['targets']) >= 4 and not z3.is_bv_value(val):
+                # many-way switch: enumerate the feasible targets through models (#feasible + 2 queries instead of one per arm)
+                tvals = {kk: (c_, bb_) for (kk, bb_), (c_, _) in zip(t.data['targets'], succs)}
+                left = dict(tvals)
+                while left:
+                    cond_any = z3.Or(*[c_ for (c_, _) in left.values()])
+                    if not self.feasible(st, cond_any):
+                        break
+                    mdl = self._last_model
+                    got = mdl.eval(val, model_completion=True).as_long()
+                    if got not in left:
+                        # the cached model satisfied cond_any through model completion of another value: fall back
+                        for kk, (c_, bb_) in list(left.items()):
+                            if self.feasible(st, c_):
+                                feas.append((c_, bb_, self._last_model))
+                        left = {}
+                        break
+                    c_, bb_ = left.pop(got)
+                    feas.append((c_, bb_, mdl))
+                if t.data['otherwise'] is not None:
+                    c_o = succs[-1][0]
+                    if self.feasible(st, c_o):
+                        feas.append((c_o, t.data['otherwise'], self._last_model))
+                succs = []
             for c, bb in succs:
                 sc = z3.simplify(c)
                 if z3.is_false(sc):
